@@ -85,12 +85,18 @@ def r10_1(rep, M, rid):
     else:
         rep.violation(rid, "wrapper: cutoff None", "None is not mapped to an infinite cutoff", M.where(FQ))
     # return order
-    init = [s for s in ast.walk(fn) if isinstance(s, ast.Assign) and isinstance(s.value, ast.List) and norm(s.targets[0]) == "result"]
+    # the result list: a local initialised with a list literal that the returns are built from (whatever it is called)
+    ret_names = {x.id for r0 in ast.walk(fn) if isinstance(r0, ast.Return) and r0.value is not None for x in ast.walk(r0.value) if isinstance(x, ast.Name)}
+    cand = [s for s in ast.walk(fn) if isinstance(s, ast.Assign) and isinstance(s.value, ast.List) and isinstance(s.targets[0], ast.Name) and s.targets[0].id in ret_names]
+    if not cand:
+        raise AnalysisError("wrapper: the list the results are collected in was not found")
+    RES = cand[0].targets[0].id
+    init = [s for s in cand if s.targets[0].id == RES]
     apps = []
     for t in ast.walk(fn):
         if isinstance(t, ast.If) and isinstance(t.test, ast.Name):
             for s in t.body:
-                if isinstance(s, ast.Expr) and isinstance(s.value, ast.Call) and norm(s.value.func) == "result.append":
+                if isinstance(s, ast.Expr) and isinstance(s.value, ast.Call) and norm(s.value.func) == RES + ".append":
                     apps.append((t.test.id, norm(s.value.args[0]), t.lineno))
     apps.sort(key=lambda x: x[2])
     ok = init and [norm(e) for e in init[0].value.elts] == [norm(a["displacements"])] and \
@@ -100,8 +106,8 @@ def r10_1(rep, M, rid):
     else:
         rep.violation(rid, "wrapper: return order", f"result starts with {[norm(e) for e in init[0].value.elts] if init else None} and appends "
                       f"{[(f, v) for f, v, _ in apps]}; documented order is displacements, factors (if requested), distances (if requested)", M.where(FQ))
-    single = [t for t in ast.walk(fn) if isinstance(t, ast.If) and norm(t.test) == "len(result) == 1"
-              and any(isinstance(s, ast.Return) and norm(s.value) == "result[0]" for s in t.body)]
+    single = [t for t in ast.walk(fn) if isinstance(t, ast.If) and norm(t.test) == f"len({RES}) == 1"
+              and any(isinstance(s, ast.Return) and norm(s.value) == f"{RES}[0]" for s in t.body)]
     if single:
         rep.ok(rid, "wrapper: a single table is returned bare, several as a tuple")
     else:
